@@ -234,6 +234,8 @@ EXTRA = [
      "its converter must produce (kinds, areas, terminals in both modes, nets, density-scaled weights, die); FloorSetInstance run and judged by TLC"),
     ("UTILS", ["C04", "C05", "C19"], "TLA+ spec Utils: strings as sequences of character classes; identifier grammar, Python float-literal grammar and "
      "read_yaml's text-vs-file rule as per-character state machines checked against declarative grammars; frame.utils functions judged by TLC"),
+    ("EXPRTREE", ["C09"], "TLA+ spec ExprTree: the legaliser's expression trees and equations (exact rationals; Build / Assign / Undo / Rehome / "
+     "MakeEquation; evaluate = get_gekko_expression; checkpoint semantics of undo; Cmp / epsilon semantics of surplus, slack, is_equation_met)"),
     ("NETAPI", ["C04", "C05", "C13"], "TLA+ spec NetApi: the loaded Netlist/Module as a mutable object: mutators, cached views, coherence"),
 ]
 
